@@ -6,7 +6,7 @@ use std::sync::{Arc, Mutex};
 
 #[derive(Clone, Debug, PartialEq, Eq, Hash, serde::Serialize, serde::Deserialize)]
 pub enum Script {
-    /// fail the j-th write call with the given kind (kind 6 = return Ok(0))
+    /// fail the j-th write call with the given kind (kind 6 = return Ok(0), 7 = WouldBlock, else see `kind_of`)
     FailAtCall { call: usize, kind: u8 },
     /// accept exactly `offset` bytes, then fail
     FailAtByte { offset: usize, kind: u8 },
@@ -18,6 +18,10 @@ pub enum Script {
 }
 
 pub fn kind_of(k: u8) -> ErrorKind {
+    if k == 7 {
+        // what a non-blocking sink reports when it is not ready: a hard error for write_all, like all the others
+        return ErrorKind::WouldBlock;
+    }
     match k % 6 {
         0 => ErrorKind::Other,
         1 => ErrorKind::BrokenPipe,
